@@ -144,6 +144,8 @@ def check_case(ctx, case, on_op=None):
                 elif ref.status == "undef" and out.kind == "num":
                     ctx.violation("history_dependent_answer", f"{label}: {S.show(h.full[i_])[:300]} returned {out.value!r} at a point the reference says is outside the domain ({ref.undef[0]})")
                 ctx.count("evaluations_judged_by_reference")
+            if out.kind == "num" and op["op"] in ("partial_at", "derivative_at", "component_at", "located_component"):
+                _judge_derivative_op(ctx, h, op, out, label)
             if hooks.ST.memo_viol:
                 v = hooks.ST.memo_viol[0]
                 ctx.violation("stale_memo_returned", f"{label}: node {S.show(S.from_json(v['node']))[:300]} at {v['point']}: memoised {v['memoised']}, fresh copy gives {v['fresh']}")
@@ -161,6 +163,53 @@ def check_case(ctx, case, on_op=None):
                         "ops": [str(o) for o in hist["ops"][:12]], "n_ops": len(hist["ops"])})
     finally:
         hooks.ST.memo_on = False
+
+
+def _judge_derivative_op(ctx, h, op, out, label):
+    """Numbers returned by derivative objects inside a history are also judged against the reference AD
+    (a module-level cache poisons fresh twins of the same process just as it poisons the used objects)."""
+    try:
+        rec = h.recipes[op["d"] % len(h.dobjs)]
+        var = op.get("var")
+        pidx = op.get("p")
+        chain = rec
+        while chain[0] in ("component", "located_from"):
+            if chain[0] == "component" and var is None:
+                var = chain[2]
+            if chain[0] == "located_from" and pidx is None:
+                pidx = chain[2]
+            chain = chain[1]
+        if chain[0] == "partial" and var is None:
+            var = chain[2]
+        if chain[0] == "located" and pidx is None:
+            pidx = chain[2]
+        i = chain[1]
+        full = h.full[i]
+        names = sorted(S.variables(full))
+        if chain[0] == "derivative":
+            if len(names) > 1:
+                return
+            var = names[0] if names else "whatever"
+        if "v" in op:
+            p = {var: op["v"]} if names else {}
+        elif pidx is not None:
+            p = h.points[pidx % len(h.points)]
+        else:
+            return
+        if var is None:
+            return
+        res = R.NORMAL.evaluate(full, p)
+        if res.status != "def":
+            return
+        _, d, da, _ = R.NORMAL.derivative(full, p, var, res=res)
+        if R.too_big(d, R._DBIG_RAW) or R.too_big(da, R._DBIG_RAW) or not C.d_decisive(d, da):
+            return
+        enc = R.slack_interval(d, da, 16)
+        ctx.count("derivative_answers_judged_by_reference")
+        if not R.contains(enc, out.value):
+            ctx.violation("history_dependent_answer", f"{label}: d/d{var} of {S.show(full)[:300]} at {S.show_point(p)} returned {out.value!r}, true partial in [{R.lo_float(enc)!r}, {R.hi_float(enc)!r}]")
+    except (H.Dead, KeyError, IndexError):
+        return
 
 
 def deciding(m):
